@@ -113,6 +113,12 @@ func (a *TCPAllocation) Connect(peer net.Addr) (proto.ConnectionID, error) {
 	if res.Type.Class == stun.ClassErrorResponse {
 		var code stun.ErrorCodeAttribute
 		if err = code.GetFrom(res); err == nil {
+			if code.Code == stun.CodeStaleNonce {
+				a.setNonceFromMsg(res)
+
+				return 0, errTryAgain
+			}
+
 			return 0, fmt.Errorf("%s (error %s)", res.Type, code) //nolint // dynamic errors
 		}
 
@@ -215,7 +221,12 @@ func (a *TCPAllocation) DialTCPWithConn(conn net.Conn, _ string, rAddr *net.TCPA
 	}
 
 	// Send connect request if haven't done so.
-	cid, err := a.Connect(rAddr)
+	var cid proto.ConnectionID
+	for range maxRetryAttempts {
+		if cid, err = a.Connect(rAddr); !errors.Is(err, errTryAgain) {
+			break
+		}
+	}
 	if err != nil {
 		return nil, err
 	}
@@ -232,11 +243,22 @@ func (a *TCPAllocation) DialTCPWithConn(conn net.Conn, _ string, rAddr *net.TCPA
 		allocation:    a,
 	}
 
-	if err := a.BindConnection(dataConn, cid); err != nil {
+	if err := a.bindConnection(dataConn, cid); err != nil {
 		return nil, fmt.Errorf("failed to bind connection: %w", err)
 	}
 
 	return dataConn, nil
+}
+
+// bindConnection is BindConnection, repeated on the same connection when the server asks for a fresh nonce.
+func (a *TCPAllocation) bindConnection(dataConn *TCPConn, cid proto.ConnectionID) (err error) {
+	for range maxRetryAttempts {
+		if err = a.BindConnection(dataConn, cid); !errors.Is(err, errTryAgain) {
+			break
+		}
+	}
+
+	return err
 }
 
 // BindConnection associates the provided connection.
@@ -292,6 +314,12 @@ func (a *TCPAllocation) BindConnection(dataConn *TCPConn, cid proto.ConnectionID
 	case stun.ClassErrorResponse:
 		var code stun.ErrorCodeAttribute
 		if err = code.GetFrom(res); err == nil {
+			if code.Code == stun.CodeStaleNonce {
+				a.setNonceFromMsg(res)
+
+				return errTryAgain
+			}
+
 			return fmt.Errorf("%s (error %s)", res.Type, code) //nolint // dynamic errors
 		}
 
@@ -347,7 +375,7 @@ func (a *TCPAllocation) AcceptTCPWithConn(conn net.Conn) (*TCPConn, error) {
 			allocation:    a,
 		}
 
-		if err := a.BindConnection(dataConn, attempt.cid); err != nil {
+		if err := a.bindConnection(dataConn, attempt.cid); err != nil {
 			return nil, fmt.Errorf("failed to bind connection: %w", err)
 		}
 
